@@ -45,8 +45,13 @@ pub enum Ending {
 
 #[derive(Clone, Debug, Serialize, Deserialize, Hash)]
 pub enum Case {
-    Int { width: u8, buf: Buf, hist: Vec<IntPush>, ending: Ending },
-    Raw { header: Vec<u64>, buf: Buf, hist: Vec<RawPush>, ending: Ending },
+    Int { width: u8, buf: Buf, hist: Vec<IntPush>, ending: Ending, #[serde(default)] preexisting: bool },
+    Raw { header: Vec<u64>, buf: Buf, hist: Vec<RawPush>, ending: Ending, #[serde(default)] preexisting: bool },
+}
+
+/// A longer file already exists under the name ("If the file already exists, it will be overwritten").
+fn precreate(path: &std::path::Path, expected_len: usize) {
+    let _ = std::fs::write(path, vec![0xABu8; 2 * expected_len + 64]);
 }
 
 fn typed(t: u8, v: u64) -> u64 {
@@ -105,7 +110,7 @@ fn scratch(tag: &str, key: u64) -> std::path::PathBuf {
 impl Prop for C12 {
     type Case = Case;
     const ID: &'static str = "C12";
-    const RULE: &'static str = "IntVectorWriter (width 1..64; push and extend of all five item types, values wider than the width) and RawVectorWriter (push_bit / push_int with widths 0..64 in any mix; optional parent header closed through close_with_header) with buffer sizes {default, 0, 1, smaller than one item, non-multiples of the width / of 64, multiples of 64, exactly the data size} and endings {close, close twice, drop, close then drop}: len() after every push equals the model count, the file is byte-identical to serializing the equivalent in-memory vector (after the parent header), a second close is Ok and changes nothing, is_open() is false afterwards. Non-trivial: at least one flush before close and an item carried over a flush boundary; distinct by case.";
+    const RULE: &'static str = "IntVectorWriter (width 1..64; push and extend of all five item types, values wider than the width) and RawVectorWriter (push_bit / push_int with widths 0..64 in any mix; optional parent header closed through close_with_header) with a file name that is new or already holds a longer file, buffer sizes {default, 0, 1, smaller than one item, non-multiples of the width / of 64, multiples of 64, exactly the data size} and endings {close, close twice, drop, close then drop}: len() after every push equals the model count, the file is byte-identical to serializing the equivalent in-memory vector (after the parent header), a second close is Ok and changes nothing, is_open() is false afterwards. Non-trivial: at least one flush before close and an item carried over a flush boundary; distinct by case.";
 
     fn cases(tier: Tier) -> u32 {
         tier.pick(12_000, 150_000)
@@ -127,8 +132,8 @@ impl Prop for C12 {
         let int_push = prop_oneof![6 => value.clone().prop_map(IntPush::Push), 1 => (0u8..5, proptest::collection::vec(value.clone(), 0..20)).prop_map(|(t, v)| IntPush::Extend(t, v))];
         let raw_push = prop_oneof![2 => any::<bool>().prop_map(RawPush::Bit), 5 => (value, 0u8..=64).prop_map(|(v, w)| RawPush::Int(v, w))];
         prop_oneof![
-            (any::<u8>(), buf.clone(), proptest::collection::vec(int_push, 0..max_items), ending.clone()).prop_map(|(width, buf, hist, ending)| Case::Int { width, buf, hist, ending }),
-            (proptest::collection::vec(any::<u64>(), 0..3), buf, proptest::collection::vec(raw_push, 0..max_items), ending).prop_map(|(header, buf, hist, ending)| Case::Raw { header, buf, hist, ending }),
+            (any::<u8>(), buf.clone(), proptest::collection::vec(int_push, 0..max_items), ending.clone(), proptest::bool::weighted(0.25)).prop_map(|(width, buf, hist, ending, preexisting)| Case::Int { width, buf, hist, ending, preexisting }),
+            (proptest::collection::vec(any::<u64>(), 0..3), buf, proptest::collection::vec(raw_push, 0..max_items), ending, proptest::bool::weighted(0.25)).prop_map(|(header, buf, hist, ending, preexisting)| Case::Raw { header, buf, hist, ending, preexisting }),
         ]
         .boxed()
     }
@@ -137,7 +142,7 @@ impl Prop for C12 {
         let mut rep = Report::new();
         let key = hash_of(case);
         match case {
-            Case::Int { width, buf, hist, ending } => {
+            Case::Int { width, buf, hist, ending, preexisting } => {
                 let width = *width as usize % 64 + 1;
                 // the equivalent in-memory vector
                 let mut mem = IntVector::new(width).unwrap();
@@ -154,6 +159,10 @@ impl Prop for C12 {
                 let mut expected: Vec<u8> = Vec::new();
                 mem.serialize(&mut expected).unwrap();
                 let path = scratch("int", key);
+                if *preexisting {
+                    precreate(&path, expected.len());
+                    rep.class("file-existed-before");
+                }
                 let buf_items = match buf {
                     Buf::Default => None,
                     Buf::Len(n) => Some(*n as usize),
@@ -213,7 +222,7 @@ impl Prop for C12 {
                 res?;
                 rep.class(&format!("int:width:{}", width));
             }
-            Case::Raw { header, buf, hist, ending } => {
+            Case::Raw { header, buf, hist, ending, preexisting } => {
                 let mut mem = RawVector::new();
                 for p in hist {
                     match p {
@@ -225,6 +234,10 @@ impl Prop for C12 {
                 header.serialize_body(&mut expected).unwrap();
                 mem.serialize(&mut expected).unwrap();
                 let path = scratch("raw", key);
+                if *preexisting {
+                    precreate(&path, expected.len());
+                    rep.class("file-existed-before");
+                }
                 let buf_bits = match buf {
                     Buf::Default => None,
                     Buf::Len(n) => Some(*n as usize),
@@ -303,7 +316,7 @@ impl Prop for C12 {
             }
         }
         // classification for the integer writer (sim is not accessible here; recompute)
-        if let Case::Int { width, buf, hist, ending } = case {
+        if let Case::Int { width, buf, hist, ending, .. } = case {
             let width = *width as usize % 64 + 1;
             let items: usize = hist.iter().map(|p| match p { IntPush::Push(_) => 1, IntPush::Extend(_, v) => v.len() }).sum();
             let buf_bits = match buf {
@@ -333,7 +346,7 @@ impl Prop for C12 {
         if widths < 64 {
             return Err(format!("only {} of 64 item widths were generated", widths));
         }
-        for c in ["raw", "raw:parent-header", "flushed-before-close", "item-carried-over-flush", "buffer-exactly-full", "ending:Close", "ending:CloseTwice", "ending:Drop", "ending:CloseThenDrop", "buf:default", "buf:0", "buf:exact-data", "int:extend"] {
+        for c in ["raw", "raw:parent-header", "flushed-before-close", "item-carried-over-flush", "buffer-exactly-full", "ending:Close", "ending:CloseTwice", "ending:Drop", "ending:CloseThenDrop", "buf:default", "buf:0", "buf:exact-data", "int:extend", "file-existed-before"] {
             if classes.get(c).copied().unwrap_or(0) == 0 {
                 return Err(format!("no generated case reached class {}", c));
             }
